@@ -94,9 +94,19 @@ func (ex *Exec) callFunction(fr *Frame, st *State, fn *ssa.Function, args []Val,
 	if sp, ok := specs[name]; ok {
 		ex.trusted[name] = true
 		// call-site clauses may name package-level library functions as "pkg.Func" (cbor.Unmarshal)
-		if ex.specMode == 0 && fn.Object() != nil && fn.Object().Pkg() != nil && !explicitEvent[name] {
+		obj := fn.Object()
+		fname := fn.Name()
+		if obj == nil && fn.Origin() != nil {
+			// instance of a generic library function (slices.BinarySearchFunc[...])
+			obj = fn.Origin().Object()
+			fname = fn.Origin().Name()
+		}
+		if k := strings.Index(fname, "["); k >= 0 {
+			fname = fname[:k]
+		}
+		if ex.specMode == 0 && obj != nil && obj.Pkg() != nil && !explicitEvent[name] {
 			if recv := fn.Signature.Recv(); recv == nil {
-				ex.checkCallSites(fr, st, fn.Object().Pkg().Name()+"."+fn.Name(), args, pos)
+				ex.checkCallSites(fr, st, obj.Pkg().Name()+"."+fname, args, pos)
 			} else {
 				// methods of library types: "netip.Addr.AsSlice" (arg0 is the receiver)
 				RT := recv.Type()
@@ -104,7 +114,7 @@ func (ex *Exec) callFunction(fr *Frame, st *State, fn *ssa.Function, args []Val,
 					RT = p.Elem()
 				}
 				if n, ok := types.Unalias(RT).(*types.Named); ok {
-					ex.checkCallSites(fr, st, fn.Object().Pkg().Name()+"."+n.Obj().Name()+"."+fn.Name(), args, pos)
+					ex.checkCallSites(fr, st, obj.Pkg().Name()+"."+n.Obj().Name()+"."+fname, args, pos)
 				}
 			}
 		}
